@@ -141,6 +141,77 @@ def _call_search(V, st, node):
 _search_results = FnSpec('search_results', params=[], ret=Seq(Obj('DefAPI')), pure=True, assumed=False,
                          note='the sequence produced by the wrapped search function')
 
+# ------------------------------------------------------------------ FolderIO.walk: in-place pruning handed on to os.walk
+def _region_walk_prune(func):
+    """the statements of FolderIO.walk's loop body AFTER the yield: they copy what the consumer removed from the yielded
+    folder list into os.walk's own `dirs` list"""
+    import ast
+    for s_ in ast.walk(func):
+        if isinstance(s_, ast.For) and 'os.walk' in ast.unparse(s_.iter):
+            for k, b in enumerate(s_.body):
+                if isinstance(b, ast.Expr) and isinstance(b.value, ast.Yield):
+                    return s_.body[k + 1:]
+    return None
+
+
+def _replay_walk(inp):
+    """a real directory with sub-folders; the consumer removes the folders of the mask from the yielded list: which
+    folders does the walk still descend into?"""
+    from pyvc.replay import run_real
+    import tempfile
+    import shutil
+    import os as _os
+    from jedi.file_io import FolderIO
+    d = tempfile.mkdtemp(prefix='c19walk_', dir='/var/tmp')
+    try:
+        names = ['d%d' % k for k in range(inp['n'])]
+        for nm in names:
+            _os.makedirs(_os.path.join(d, nm, 'inner'))
+        # a second level that is pruned too (state must not leak from one directory to the next)
+        drop = set(inp['drop'])
+
+        def run():
+            visited = []
+            for root, folders, files in FolderIO(d).walk():
+                visited.append(_os.path.relpath(root.path, d))
+                folders[:] = [f for f in folders if _os.path.basename(f.path) not in drop]
+            return sorted(visited)
+        out = run_real(run)
+        exp = ['.'] + [nm for nm in names if nm not in drop]
+        exp += [_os.path.join(nm, 'inner') for nm in names if nm not in drop and 'inner' not in drop]
+        return {'EXPECTED': sorted(exp)}, out
+    finally:
+        shutil.rmtree(d, ignore_errors=True)
+
+
+def _walk_contract(n, mask):
+    kept = [k for k in range(n) if mask[k]]
+    c = Contract(
+        id='C19.FolderIO.walk.prune[%d:%s]' % (n, ''.join('1' if m else '0' for m in mask)), prop='C19',
+        clause='directory walk with in-place pruning: after the consumer removed folders from the yielded list, exactly '
+               'the entries of os.walk\'s own list that belong to removed folders are deleted (the others stay, in '
+               'order) - so ignored folders are never descended into and no other folder is lost '
+               '(%d sub-folders, kept: %s)' % (n, kept),
+        file='jedi/file_io.py', qualname='FolderIO.walk', region=_region_walk_prune,
+        params={'self': Obj('FolderIO')},
+        free={'original_folder_ios': Seq(Obj('FolderIO')), 'modified_folder_ios': Seq(Obj('FolderIO')),
+              'dirs': Seq(STR), 'root': STR, 'files': Seq(STR), 'root_folder_io': Obj('FolderIO')},
+        families=['FolderIO'], tier='SB', bounds={'sub-folders of one directory': n}, merge=False,
+        requires=(['all(original_folder_ios[i] is not original_folder_ios[j] for i in range(%d) for j in range(i))' % n]
+                  if n > 1 else []) +
+                 ['modified_folder_ios[%d] is original_folder_ios[%d]' % (a, b) for a, b in enumerate(kept)],
+        ensures=['NEW_dirs == [%s]' % ', '.join('dirs[%d]' % k for k in kept)],
+        witness={}, replay=_replay_walk, concrete_only=True, concrete_ensures=['result == EXPECTED'],
+        witness_library=[{'n': 3, 'drop': dr} for dr in ([], ['d0'], ['d1'], ['d2'], ['d0', 'd2'], ['d0', 'd1', 'd2'],
+                                                         ['inner'], ['d1', 'inner'])],
+    )
+    c.shape = {'original_folder_ios': n, 'modified_folder_ios': len(kept), 'dirs': n}
+    return c
+
+
+import itertools as _it
+WALK = [_walk_contract(n, mask) for n in range(0, 4) for mask in _it.product((True, False), repeat=n)]
+
 _search_in_module_last = None
 
 FAMILIES = [
@@ -148,7 +219,7 @@ FAMILIES = [
     Family('DefAPI', attrs={'_name': Obj('NameW'), 'type': STR, 'module_path': Opt(PATH)}),
 ]
 
-CONTRACTS = [_expand, _split, _skip_dups]
+CONTRACTS = [_expand, _split, _skip_dups] + WALK
 
 
 def register(reg):
